@@ -268,6 +268,7 @@ def replay_history(mod, tier, art):
     """Re-run, in this (fresh) process, every state the worker had explored before the failing one - the shards it had
     finished, then the failing state's own shard up to that state - and return the failing state's context.  A failure
     that only shows after earlier states is a dependence on process-wide state left behind by those states."""
+    list(mod.shards(tier))     # as in explore(): some checks compute reference answers here, in the still pristine process
     _worker_init()
     target = lib.h64(art['top_case'])
     for sh in art['history_shards']:
